@@ -20,6 +20,7 @@ EXPLANATION = (
     "dependent behaviour.")
 EXPLANATION += (' Added after the audit wave: C18.3 the lag-differences of shortest_int are written in the form defined for every lag (sorted[lag:] - sorted[:len-lag]); `[:-lag]` is the empty slice for lag 0, i.e. for percent*len < 100.')
 EXPLANATION += (' Second audit wave: C18.1 an integer cast between rounding and the clamp needs the value saturated to [0, 2**n-1] in floating point first (a ratio beyond 2**63, inf or nan has no integer value).')
+EXPLANATION += (' Wave 14: C18.5 ADC and shortest_int leave their arguments as they found them (the in-place clause of C14: an augmented assignment on a name that may alias argument data).')
 TRUSTED = ["numpy.round/clip/sort/argmin semantics"]
 
 
